@@ -493,6 +493,10 @@ def run_property(prop, tier: str, seed: int) -> int:
     new_keys = [k for k in total.buckets if k[1] is None]
     known_keys = [k for k in total.buckets if k[1] is not None]
     outdir = os.path.join(HOME, "out", prop.ID)
+    if os.path.isdir(outdir):  # replay files of earlier runs are stale
+        for fn in os.listdir(outdir):
+            if fn.endswith(".json"):
+                os.unlink(os.path.join(outdir, fn))
     violations = []
     if new_keys:
         os.makedirs(outdir, exist_ok=True)
